@@ -484,11 +484,7 @@ Qed.
 Section Threads.
 Variables (i : iid) (k : key).
 
-Definition W (s : st) (p : tprog) : Prop :=
-  match p with
-  | TAdd x | TAddSplit x => exists ob, alookup x (heap s) = Some ob /\ okey ob = k
-  | _ => True
-  end.
+Local Notation W := (targets k).
 Definition J (s : st) (p : tprog) (c : pc) : Prop :=
   (loaded c <> None -> amem k (fs s) = true) /\
   (forall o, tobj p c = Some o -> amem k (fs s) = true /\ replica s i k o).
